@@ -190,8 +190,16 @@ func genProfile(t *simrt.Tape, o genOpts) *profile.Profile {
 			v := int64([]int{16, 1024, 4096, 0}[t.Choose(K, 4)])
 			s.NumLabel[k] = []int64{v}
 			s.NumUnit[k] = []string{[]string{"bytes", "kb", ""}[t.Choose(K, 3)]}
+			if t.Bool(K, 30) {
+				// several values under one key, some with and some without a unit
+				n := 1 + t.Choose(K, 2)
+				for j := 0; j < n; j++ {
+					s.NumLabel[k] = append(s.NumLabel[k], int64([]int{8, 32, 0, 1 << 20}[t.Choose(K, 4)]))
+					s.NumUnit[k] = append(s.NumUnit[k], []string{"", "bytes", "kb"}[t.Choose(K, 3)])
+				}
+			}
 			if o.odd && t.Bool(K, 20) {
-				s.NumUnit[k] = []string{oddStrings[t.Choose(K, len(oddStrings))]}
+				s.NumUnit[k][0] = oddStrings[t.Choose(K, len(oddStrings))]
 			}
 		}
 		p.Sample = append(p.Sample, s)
